@@ -45,7 +45,7 @@ ZeroTs(log) == [k \in 1..Len(log) |-> [log[k] EXCEPT !.ts = 0]]
 ZeroView(v) == Ops!NoTime(v)
 
 Modelled(c) == c.name \in {"new_task", "new_epic", "set", "claim_id", "claim", "sequence",
-                           "sequence_rm", "prune", "prune_dry", "compact", "plan"}
+                           "sequence_rm", "prune", "prune_dry", "compact", "plan", "list_ready"}
 NormCmd(c) == IF c.name = "prune_dry" THEN [c EXCEPT !.name = "prune"] ELSE c
 
 \* some outcome the as-is spec allows has this exit status, these events, this reply
@@ -66,12 +66,17 @@ R_reply(o) ==
        /\ r.exit = 0
        /\ r.reply.id = o.reply.id /\ r.reply.state = o.reply.state
        /\ r.reply.claim = o.reply.claim /\ r.reply.status = o.reply.status
-       /\ r.reply.ids = o.reply.ids /\ r.reply.edges = o.reply.edges
+       /\ (IF o.cmd.name = "list_ready" THEN ToSet(r.reply.ids) = ToSet(o.reply.ids)
+                                         ELSE r.reply.ids = o.reply.ids)
+       /\ r.reply.edges = o.reply.edges
        /\ r.reply.pruned = o.reply.pruned
 \* timestamps of appended events never run backwards
 R_time(o) == o.cmd.name # "compact" /\ Len(o.logpost) > Len(o.logpre) /\ P!IsPrefix(o.logpre, o.logpost) =>
                \A k \in (Len(o.logpre) + 1)..Len(o.logpost) :
                   o.logpost[k].type \in {"link", "unlink"} \/ o.logpost[k].ts >= MaxTs(o.logpre)
+\* a failing command appends nothing, observable or not (C10 itself speaks of
+\* the observable state only; this is recorded as drift, not as a verdict)
+R_faillog(o) == o.exit # 0 => o.logpost = o.logpre
 R_preview(o) == Ops!Replay(o.logpre).err = "" => Ops!View(Ops!Replay(o.logpre)) = o.pre
 
 (***************************************************************************)
@@ -92,7 +97,7 @@ ClauseNames ==
     "C15_progress", "C15_waits", "C15_claim",
     "C16_one_value", "C16_truth",
     "C20_only_grow", "C20_confined", "C20_live_only",
-    "R_step", "R_reply", "R_time", "R_preview" }
+    "R_step", "R_reply", "R_time", "R_preview", "R_faillog" }
 
 Eval(n, o) ==
   CASE n = "C05_invisible" -> P!C05_invisible(o)
@@ -147,6 +152,7 @@ Eval(n, o) ==
     [] n = "R_reply" -> R_reply(o)
     [] n = "R_time" -> R_time(o)
     [] n = "R_preview" -> R_preview(o)
+    [] n = "R_faillog" -> R_faillog(o)
 
 \* the clauses the harness asked for on this record (all, unless it names some)
 Wanted(r) == IF "only" \in DOMAIN r THEN ToSet(r.only) \cap ClauseNames ELSE ClauseNames
